@@ -181,13 +181,28 @@ theorem C29_host_sr2_nonzero (pk m sg : Bytes) (h : pk ≠ zeros32) :
   unfold hostSr2Go
   simp [h]
 
-/-- the recovery host functions answer `00 ‖ key` (65 or 34 bytes) or the single byte `01` -/
+/-- the recovery host functions answer `00 ‖ key` (65 or 34 bytes) or `01 ‖ v` with v one of the three
+    variants of EcdsaVerifyError -/
 theorem C29_host_recover_shape (c : Bool) (m sg : Bytes) :
     (∃ q, ecdsaRecover m sg = some q ∧ hostRecoverGo c m sg = 0 :: (if c then compressQ q else q)) ∨
-    (ecdsaRecover m sg = none ∧ hostRecoverGo c m sg = [1]) := by
+    (ecdsaRecover m sg = none ∧ ∃ v : UInt8, v ≤ 2 ∧ hostRecoverGo c m sg = [1, v]) := by
   unfold hostRecoverGo
   cases h : ecdsaRecover m sg with
-  | none => right; simp
+  | none =>
+    right
+    refine ⟨rfl, ecdsaErrCode sg, ?_, rfl⟩
+    unfold ecdsaErrCode
+    simp only
+    repeat' split
+    all_goals decide
   | some q => left; exact ⟨q, rfl, by simp⟩
+
+/-- a recovery id outside 0..3 (after the optional −27) is reported as BadV, before r and s are looked at -/
+theorem C29_host_recover_badv (sg : Bytes)
+    (h : (if (sg.getD 64 0).toNat ≥ 27 then (sg.getD 64 0).toNat - 27 else (sg.getD 64 0).toNat) > 3) :
+    ecdsaErrCode sg = 1 := by
+  unfold ecdsaErrCode
+  simp only
+  rw [if_pos h]
 
 end Gossamer.C29
